@@ -43,7 +43,9 @@ Print Assumptions c01_budget_free_worker_at_every_start.
 
 (* --- ids -------------------------------------------------------------------
    [ids_ok] (proofs/TunerProofs.v): every EBStart event carries the number of EBStart events
-   before it, every ESSuggest is asked for exactly that number; len(trial_ids) equals it. *)
+   before it, every ESSuggest is asked for exactly that number; len(trial_ids) equals it. Hence suggest is always
+   called with the id the backend will issue next; a resume consumes no id, and neither does a start that fails
+   half-way (model [failed_start]: copy_checkpoint raised inside start_trial, nothing registered). *)
 Theorem c01_ids :
   forall prm o fuel st x, run_loop prm o fuel = (st, x) ->
     ids_ok (s_trace st) /\ s_ntrials st = count_starts (s_trace st).
